@@ -17,7 +17,7 @@ BASE = dict(
     NDataSet={2}, GPosSet={"first"}, RelWSet={"equal"}, HdrWSet={False},
 )
 # deviation flags: what the code under test does today / what the properties describe
-IMPL = dict(ReserveDefaultHeader=False, BudgetContinuation=False, ChargeRenderedOnly=False, BorderByPage=False)
+IMPL = dict(ReserveDefaultHeader=False, BudgetContinuation=False, ChargeRenderedOnly=False, BorderByPage=True)
 INTENDED = dict(ReserveDefaultHeader=True, BudgetContinuation=True, ChargeRenderedOnly=True, BorderByPage=True)
 
 ALL_STRAT = {"plain", "pageby", "subline", "subpb"}
